@@ -39,7 +39,7 @@ var arena struct {
 var arenaOff = os.Getenv("VERIF_NO_REUSE") != ""
 
 // operations never re-evaluated: stateful stores, child-process containment, schedules
-var arenaSkipPrefix = []string{"c17.", "stream.", "race.", "buf."}
+var arenaSkipPrefix = []string{"c17.", "stream.", "reorder.", "race.", "buf."}
 
 // operations whose arguments are documented to be appended to (hash.Hash.Sum(b) appends the digest
 // to b): writing into the spare capacity is their contract, only the answer is compared
